@@ -57,12 +57,28 @@ def run(ctx):
     run_driver(ctx, f"{out}/failsafe.cases", f"{out}/failsafe.model.full")
     model = [l for l in read_lines(f"{out}/failsafe.model.full") if l.startswith("run ")]
     impl = read_lines(f"{out}/failsafe.impl")
-    cases = [l for l in read_lines(f"{out}/failsafe.cases") if l.startswith("sess")]
+    cases, progs, cur = [], [], []
+    for l in read_lines(f"{out}/failsafe.cases"):
+        if l.startswith("prog "):
+            cur = []
+        if l.startswith("sess"):
+            cases.append(l); progs.append([x for x in cur if x not in ("build",) and not x.startswith("prog ")])
+        else:
+            cur.append(l)
     dis = 0
     for k in range(max(len(impl), len(model))):
         a = impl[k] if k < len(impl) else None
         b = model[k] if k < len(model) else None
-        if a != b:
+        if a != b and a and b and a.startswith("run ok") and b.startswith("run err"):
+            # the real runner reports success where the checked semantics (proved to reject
+            # missing / conflicting inputs) returns an error: a concrete failing session
+            dis += 1
+            if dis <= 3:
+                violations.append({"class": "runner-accepts:" + b.split()[2],
+                                   "what": f"runner succeeds on a session the checked semantics rejects with {b.split()[2]}",
+                                   "replay": {"field": "bb", "program": progs[k] if k < len(progs) else None,
+                                              "session": cases[k] if k < len(cases) else None, "impl": a[:200], "model": b}})
+        elif a != b:
             dis += 1
             if dis <= 3:
                 violations.append({"class": "model-disagreement",
